@@ -104,11 +104,20 @@ def walker_rule(ctx, r, fname, label, leaf_check, helpers=None):
         if v not in arms:
             continue
         reg = own_region(f, arms, ow, v, variants)
-        ok, detail = leaf_check(f, reg, v)
-        if ok:
-            r.ok(label + "|leaf|" + v, detail, fn=f)
-        else:
-            r.bad(label + "|leaf|" + v, "%s: the %s arm %s" % (fname.split("::")[-1], v, detail), fn=f, construct=v)
+        subregs = [(v, reg)]
+        if v == "Class":
+            # both class kinds are consuming leaves: check each sub-arm on its own
+            csw = [s_ for s_ in discr_switches(f, "regex_syntax::hir::Class") if s_[0] in reg or s_[0] == bb]
+            if csw:
+                cb, cadt, cplace, carms, cow, cow_live, cmissing = csw[0]
+                cvars = sorted(set(carms) | set(cmissing))
+                subregs = [("Class::" + cv, own_region(f, carms, cow, cv, cvars) & (reg | {carms.get(cv, cow)})) for cv in cvars]
+        for name_, sreg in subregs:
+            ok, detail = leaf_check(f, sreg, v)
+            if ok:
+                r.ok(label + "|leaf|" + name_, detail, fn=f)
+            else:
+                r.bad(label + "|leaf|" + name_, "%s: the %s arm %s" % (fname.split("::")[-1], name_, detail), fn=f, construct=name_)
     return f, arms, ow, variants
 
 
@@ -134,7 +143,7 @@ def _helper_rec(facts, f, region, helper_names, names):
 
 def run(ctx):
     facts = ctx.facts
-    with ctx.rule("C11.ARMS", "HirKind walkers: explicit arm per variant, recursion into all children, leaves handled", floor=24,
+    with ctx.rule("C11.ARMS", "HirKind walkers: explicit arm per variant, recursion into all children, leaves handled", floor=28,
                   kind="ARMS") as r:
         ERRNEW = R + "::error::Error::new"
 
